@@ -246,10 +246,13 @@ PROPS = {
     "C20": {
         "test": "TestC20", "variant": "elem",
         "quick": {"shards": 16, "timeout": 1500,
-                  "matrix": [{"cpus": c} for c in (16, 1, 2, 3, 5, 16, 7, 1, 16, 2, 3, 16, 5, 11, 13, 16)]},
-        "thorough": {"shards": 32, "timeout": 10800, "matrix": [{"cpus": c} for c in range(1, 17)]},
+                  # GOMAXPROCS differs from the CPU count in a third of the processes (above it and below it): the default
+                  # worker limit is the CPU count, whatever GOMAXPROCS says
+                  "matrix": [{"cpus": c, "gomaxprocs": g} for (c, g) in ((16, None), (1, None), (2, 7), (3, None), (5, 2), (16, 24), (7, None), (1, 4),
+                                                                         (16, None), (2, None), (3, 17), (16, 5), (5, None), (11, None), (13, 32), (16, None))]},
+        "thorough": {"shards": 32, "timeout": 10800, "matrix": [{"cpus": c, "gomaxprocs": g} for c in range(1, 17) for g in (None, c + 5)]},
         "rule": "exhaustive grid (n, m): the full 0..2048 x 1..300 in both tiers; plus the default worker limit for every n under NumCPU in 1..16 "
-                "(taskset); plus rapid cases with per-invocation delays (Gosched bursts / short sleeps) inside the work "
+                "(taskset), with GOMAXPROCS equal to, above and below the CPU count; plus rapid cases with per-invocation delays (Gosched bursts / short sleeps) inside the work "
                 "function. Non-trivial (counted, distinct by construction for the grid) = n > m and n mod m != 0."
                 + ' Round-4 additions: iteration counts far beyond the grid (4096 ... 2^62, +-3) with worker limits 0, 1, 3, 16, 17, 257, 4099, forced and drawn.',
         "oracle": "validity predicate over the recorded multiset of (start,end): sorted ranges contiguous and disjoint, union "
